@@ -105,7 +105,10 @@ def one_case(args):
                             events.append((cid, 'a', 1))
                             critical()
                         bname = ['L', 0, ''][seed % 3]
-                        diskcache.barrier(cache, diskcache.Lock, name=bname)(body_odd if cid % 2 else body_even)()
+                        # every lock factory, with and without an expiry for the lock item: always ONE holder
+                        factory = [diskcache.Lock, diskcache.RLock, diskcache.BoundedSemaphore][(seed // 3) % 3]
+                        bexpire = [None, 30][(seed // 9) % 2]
+                        diskcache.barrier(cache, factory, name=bname, expire=bexpire)(body_odd if cid % 2 else body_even)()
                         events.append((cid, 'r', 1))
                         return 'n'
                     lk.acquire()
